@@ -172,6 +172,7 @@ var stateByCommand = map[stateSet][]string{
 // ruleClientStateWrites: C12.b.
 func ruleClientStateWrites(c *Ctx, rule string) {
 	p := c.P
+	closeWE := p.Func("imapclient", "Client", "closeWithError")
 	setState := p.Func("imapclient", "Client", "setState")
 	complete := p.Func("imapclient", "Client", "completeCommand")
 	if setState == nil || complete == nil {
@@ -252,7 +253,7 @@ func ruleClientStateWrites(c *Ctx, rule string) {
 				want := map[stateSet]string{stNotAuth: "OK", stAuth: "PREAUTH"}[k]
 				okG := k == stLogout || (want != "" && fs.has("streq:"+want))
 				c.check(okG, rule, key, i.Pos(), "greeting: state follows the status type", "the greeting handling sets "+sname+" for the wrong status type")
-			case fnKey(fn) == "(*Client).closeWithError":
+			case fnKey(fn) == "(*Client).closeWithError" || (closeWE != nil && isHelperOf(fn, closeWE, 2)):
 				c.check(k == stLogout, rule, key, i.Pos(), "teardown → Logout", "teardown sets "+sname)
 			case k == stAuth && fs.has("streq:CLOSED"):
 				c.ok(rule, key, i.Pos(), "[CLOSED] response code: the previous mailbox is closed")
@@ -363,7 +364,64 @@ func cmdTypesUsed(p *Program, fn *ssa.Function, within func(ssa.Instruction) boo
 		}
 		return ""
 	}
+	// the handler, its closures and the unexported helpers it calls (a routing
+	// block extracted into a helper is still the handler's routing); other
+	// handlers, the generic lookups, completion and the response readers are
+	// not helpers. With a region filter only helpers called from the region count.
+	scope := withAnon(fn)
+	inScope := map[*ssa.Function]bool{}
+	for _, f := range scope {
+		inScope[f] = true
+	}
+	notHelper := func(f *ssa.Function) bool {
+		if f.Parent() != nil {
+			return false
+		}
+		n := f.Name()
+		for _, pre := range []string{"handle", "findPendingCmd", "complete", "read", "closeWithError", "begin", "delete", "register"} {
+			if strings.HasPrefix(n, pre) {
+				return true
+			}
+		}
+		return false
+	}
+	var addHelpers func(f *ssa.Function, depth int, top bool)
+	addHelpers = func(f *ssa.Function, depth int, top bool) {
+		if depth == 0 {
+			return
+		}
+		allInstrs(f, func(i ssa.Instruction) {
+			if top && within != nil && f == fn && !within(i) {
+				return
+			}
+			call, ok := i.(ssa.CallInstruction)
+			if !ok {
+				return
+			}
+			cal := staticCallee(call)
+			if cal == nil || !inModule(cal) || cal.Blocks == nil || cal.Synthetic != "" || inScope[cal] || notHelper(cal) {
+				return
+			}
+			nm := cal.Name()
+			if cal.Parent() == nil && (nm == "" || strings.ToUpper(nm[:1]) == nm[:1]) {
+				return
+			}
+			if pkgPathOf(cal) != modPath+"/imapclient" {
+				return
+			}
+			for _, g := range withAnon(cal) {
+				if !inScope[g] {
+					inScope[g] = true
+					scope = append(scope, g)
+				}
+			}
+			addHelpers(cal, depth-1, false)
+		})
+	}
 	for _, f := range withAnon(fn) {
+		addHelpers(f, 2, true)
+	}
+	for _, f := range scope {
 		allInstrs(f, func(i ssa.Instruction) {
 			if within != nil && f == fn && !within(i) {
 				return
